@@ -18,6 +18,7 @@ from modgen import Gen, model_str, val_str
 import c08_util as U
 import c08_wide as W
 import c08_alpha as A
+import c08_prod as P
 
 MODDRV_EXTRA = os.path.join(HARNESS, "moddrv_c08.inc")
 BUILTIN_NAMES = ["INTEGER", "OCTET STRING", "BOOLEAN", "NULL", "SEQUENCE", "SEQUENCE OF", "SET OF", "CHOICE", "SET", "REAL",
@@ -498,7 +499,7 @@ def oracle_layer(run, xm, cases, name, opts, clamp_need):
             else:
                 shown += 1
                 if shown <= 6:           # vlib writes the first 20 violations of a run: leave room for the other layers
-                    run.violation("oracle:check_exact(%s)" % ("strings" if name == "C08-strings" else "wide"),
+                    run.violation("oracle:check_exact(%s)" % {"C08-strings": "strings", "C08-builtin": "builtin", "C08-sets": "sets"}.get(name, "wide"),
                                   dict(replay, what="asn_check_constraints returned %s, the constraints say %s" % (ret, want), command_line=line, c=o[1][:300], message=full))
                 else:
                     run.count(name + "_further_mismatches_not_listed")
@@ -640,6 +641,142 @@ def alphabet_layer(run, model, am, sites, where, acases, tag, opts, clamp_need, 
         run.sample({"alphabet_case": c["what"][:200], "der": c["der"][:80], "violated": c["bad"]})
 
 
+
+# ---------------------------------------------------------------- producers (lib/c08_prod.py, coq/Rt/ConstraintsSet.v)
+PRODUCERS = ("ber", "xer", "oer", "uper", "hb0", "hb1")
+
+
+def producer_layer(run, model, xm, cases, name, opts, wide):
+    """`chkp`: the same abstract value produced by ber_decode, by XER / OER / UPER decode of the library's own encoding and
+    "by assignment" (every _presence_map cleared / all set): one verdict, one message, and the verdict of the Spec.
+    Cases with a model type (SETs over the model's algebra) are also compared with the extracted `c08set`."""
+    if not xm.get("exe"):
+        return            # reported by the oracle layer of the same module
+    lines = ["chkp %s %s" % (c["tn"], c["der"]) for c in cases]
+    try:
+        out = run_mod(run, xm, lines, name, timeout=600)
+    except subprocess.TimeoutExpired:
+        run.violation("oracle:termination", {"what": "producer sweep did not finish within 600 s", "module": xm["text"][:3000]})
+        return
+    mq = [(i, c) for i, c in enumerate(cases) if c.get("cty")]
+    mlines = []
+    for _i, c in mq:
+        nmemb = len(split_members(c["mval"]))
+        for mp in ("dec", "hb", "1" * nmemb):
+            mlines.append("c08set %s %s %s %s" % ("1" if wide else "0", c["cty"], c["mval"], mp))
+    mo = []
+    if mlines:
+        rc, mo, me = run_lines(model, mlines, timeout=300)
+        if rc != 0 or len(mo) != len(mlines):
+            raise RuntimeError("model driver failed on c08set: %s %s" % (rc, me))
+    mres = {i: mo[3 * k:3 * k + 3] for k, (i, _c) in enumerate(mq)}
+    shown = {"prod": 0, "spec": 0, "corr": 0}
+    nrun = 0
+    for i, c in enumerate(cases):
+        o = out[i]
+        f = o.split()
+        replay = {"module": xm["text"] if len(xm["text"]) < 5000 else "(module %s)" % xm["name"], "type_text": c.get("text", ""), "asn1c_options": " ".join(opts),
+                  "type": c["tn"], "case": c["what"], "der": c["der"][:600], "violated": c["bad"], "command_line": lines[i], "c": o[:400]}
+        if not f or f[0] not in ("0", "-1"):
+            run.count(name + "_skipped:" + (f[0] if f else "empty"))
+            continue
+        got = dict(x.split("=", 1) for x in f[1:] if "=" in x)
+        nrun += 1
+        run.case(name + " " + lines[i][:300])
+        v0 = f[0]
+        problems = []
+        for p in PRODUCERS:
+            r = got.get(p, "?")
+            if r[:1] in ("E", "D", "N", "?"):
+                run.count("%s_%s_unavailable:%s" % (name, p, r[:1]))
+                if p in ("ber", "hb0", "hb1"):
+                    problems.append("producer %s: %s (the structure no longer encodes to the same DER)" % (p, r))
+                continue
+            run.count("%s_%s_verdicts" % (name, p))
+            verdict, same = r[:-1], r[-1] == "="
+            if verdict != v0:
+                problems.append("asn_check_constraints returned %s for the structure produced by %s and %s for the BER-decoded one (the Spec says %s)"
+                                % (verdict, p, v0, "-1" if c["bad"] else "0"))
+            elif not same:
+                problems.append("the message for the structure produced by %s differs from the BER-decoded one's" % p)
+        if problems:
+            shown["prod"] += 1
+            if shown["prod"] <= 5:
+                run.violation("oracle:producer_independent", dict(replay, what="; ".join(problems)[:900]))
+            else:
+                run.count(name + "_further_mismatches_not_listed")
+        # v0 itself against the Spec is the oracle layer's business (known findings are attributed there)
+        if i in mres:
+            for p, m in zip(("ber", "hb0", "hb1"), mres[i]):
+                r = got.get(p, "?")
+                if r[:1] in ("E", "D", "N", "?"):
+                    continue
+                if (r[:-1] == "0") != (m == "OK"):
+                    bad = (r[:-1] == "0") != (not c["bad"])
+                    shown["corr"] += 1
+                    if shown["corr"] <= 4:
+                        run.violation("correspondence:Rt.ConstraintsSet.set_constraint",
+                                      dict(replay, what="SET_constraint on the structure produced by %s and the model disagree%s" % (p, " (and the C contradicts the Spec)" if bad else ""),
+                                           model_type=c["cty"], model_value=c["mval"], model=m), no_input=not bad)
+            run.count("set_structures_vs_model")
+    run.count(name + "_cases", nrun)
+
+
+def split_members(mv):
+    """top-level members of an S{...} value string"""
+    body, out, depth, cur = mv[2:-1], [], 0, ""
+    i = 0
+    while i < len(body):
+        ch = body[i]
+        cur += ch
+        if ch == "{":
+            depth += 1
+        elif ch == "}":
+            depth -= 1
+            if depth == 0:
+                out.append(cur)
+                cur = ""
+        elif depth == 0:
+            if ch in "TFN_":
+                out.append(cur)
+                cur = ""
+            elif ch == ";":
+                out.append(cur)
+                cur = ""
+        i += 1
+    return out
+
+
+def utf8_leaf_layer(run, model, strings):
+    """UTF8String_length / _constraint / _to_wcs of the unchanged skeleton against the extracted model of
+    UTF8String__process, and against the independent scanner (lib/c08_prod.u8_scan)"""
+    cdrv = build_leafdrv()
+    lines = P.utf8_leaf_lines(strings)
+    rc, mo, me = run_lines(model, lines, timeout=300)
+    if rc != 0 or len(mo) != len(lines):
+        raise RuntimeError("model driver failed on u8len: %s %s" % (rc, me))
+    rc, co, ce = run_lines(cdrv, lines, timeout=300, env=SAN_ENV)
+    if rc != 0 or len(co) != len(lines):
+        run.violation("crash:C08-utf8-leaf", {"what": "the leaf driver died (rc=%s) after %d of %d lines" % (rc, len(co), len(lines)), "stderr": ce[-1500:],
+                                               "command_line": lines[len(co)] if len(co) < len(lines) else ""})
+        return
+    nbad = {"corr": 0, "spec": 0}
+    for line, m, c in zip(lines, mo, co):
+        run.case("leaf " + line)
+        run.count("utf8_leaf_" + line.split()[0])
+        prob = P.utf8_leaf_oracle(line, c)
+        if m != c:
+            nbad["corr"] += 1
+            if nbad["corr"] <= 4:
+                run.violation("correspondence:Leaf.Utf8.process", {"what": "UTF8String.c and the model disagree" + (" (and the C contradicts the octets: %s)" % prob if prob else ""),
+                                                                    "command_line": line, "c": c, "model": m}, no_input=not prob)
+        elif prob:
+            nbad["spec"] += 1
+            if nbad["spec"] <= 4:
+                run.violation("oracle:utf8_length", {"what": prob + " (the model agrees with the C: model or proof defect)", "command_line": line, "c": c})
+    run.count("utf8_leaf_lines", len(lines))
+
+
 def tick(what):
     if os.environ.get("VERIF_DEBUG"):
         log("[c08 %.1fs] %s" % (time.time() - T0, what))
@@ -666,6 +803,10 @@ def main(tier):
         scases = string_cases(rng)
         wm, wcases = W.wide_module(rng)
         am, asites, awhere, acases = A.alpha_module(rng, tier)
+        um, ucases, ustrings = P.strings_module(rng, tier)
+        pm, pcases = P.producer_module(rng)
+        utf8_leaf_layer(run, model, ustrings)
+        tick("utf8 leaf tie")
         clamp_need = []
         nmods = 0
         flagsets = FLAGSETS_QUICK if tier == "quick" else FLAGSETS_THOROUGH
@@ -676,7 +817,9 @@ def main(tier):
             sel = {"all": [hand] + bmods + gmods, "main": [hand] + bmods + gmods[:2], "boundary": bmods,
                    "lite": [U.lite_module(m) for m in bmods]}[which]
             sel = [dict(m) for m in sel]
-            xs = [dict(xm), dict(wm)] if which in ("all", "main") else []
+            xs = [dict(xm), dict(wm), dict(pm)] if which in ("all", "main") else []
+            if tag == "cn":
+                xs.append(dict(um))          # strings do not depend on -fwide-types
             if tag in ALPHA_FLAGSETS:
                 xs.append(dict(am))
             tick("build " + tag)
@@ -691,8 +834,18 @@ def main(tier):
                     oracle_layer(run, x, scases, "C08-strings", opts, clamp_need)
                 elif x["name"] == am["name"]:
                     alphabet_layer(run, model, x, asites, awhere, acases, tag, opts, clamp_need, share=1 if tag == "cn" else 3)
+                elif x["name"] == um["name"]:
+                    oracle_layer(run, x, ucases, "C08-builtin", opts, clamp_need)
+                    producer_layer(run, model, x, [c for i, c in enumerate(ucases) if tier != "quick" or (i + run.seed) % 3 == 0 or c["tn"] in ("UT", "UM")],
+                                   "C08-producers(builtin)", opts, wide)
+                elif x["name"] == pm["name"]:
+                    oracle_layer(run, x, pcases, "C08-sets", opts, clamp_need)
+                    producer_layer(run, model, x, pcases, "C08-producers(sets)", opts, wide)
                 else:
                     oracle_layer(run, x, wcases, "C08-wide", opts, clamp_need)
+                    if tag == "cn":
+                        producer_layer(run, model, x, [c for c in wcases if (c["tn"][:2] in ("WS", "WT", "WC", "WD", "WQ") or c["label"] in ("int", "list")) and "REAL" not in c.get("text", "")],
+                                       "C08-producers(wide)", opts, wide)
                 tick("ran %s %s" % (tag, x["name"]))
         check_clamp_model(run, model, clamp_need)
         kinds = {}
